@@ -305,7 +305,7 @@ Inductive step_result :=
 | SReturn (u : spec_url)
 | SFailure (u : spec_url).
 
-(* Result of the basic URL parser.  BOutOfFuel never occurs (validated; see spec_fuel). *)
+(* Result of the basic URL parser.  BOutOfFuel never occurs (proved in Spec/WhatwgFuel.v). *)
 Inductive parse_outcome :=
 | BDone (u : spec_url)
 | BFailure (u : spec_url)           (* failure; u = url as modified up to that point *)
@@ -750,7 +750,8 @@ Fixpoint run (fuel : nat) (m : machine) : parse_outcome :=
 End BasicUrlParser.
 
 (* Every run either moves the pointer forward or changes to a state that will; the pointer moves
-   backwards twice at most (start over in the scheme state, rewind in the authority state). *)
+   backwards twice at most (start over in the scheme state, rewind in the authority state).
+   Spec/WhatwgFuel.v proves that this fuel is never exhausted (at most 3 * |input| + 21 runs). *)
 Definition spec_fuel (input : list N) : nat := (4 * length input + 24)%nat.
 
 Section Api.
